@@ -542,7 +542,7 @@ def make_config(root, cli, nproc=None):
 
 
 def plugin_session(files, *, cli=None, env_flags=None, tty=False, ci_var=None, pycharm=False, nproc=None, answers=(),
-                   xfail=(), pyproject=None, extra_globals=None, body_hook=None, storage_files=None, shortcut_args=None, finish=True) -> PluginResult:
+                   xfail=(), pyproject=None, extra_globals=None, body_hook=None, storage_files=None, shortcut_args=None, finish=True, per_file_globals=None) -> PluginResult:
     """D-plugin: real pytest_configure -> (real autouse fixture around every test_* function) -> real
     pytest_sessionfinish, with stub config/request/session objects.  File writes are captured in memory."""
     import pytest
@@ -648,6 +648,8 @@ def plugin_session(files, *, cli=None, env_flags=None, tty=False, ci_var=None, p
                 g.update(W.ns)
                 if extra_globals:
                     g.update(extra_globals)
+                if per_file_globals and fname in per_file_globals:
+                    g.update(per_file_globals[fname])
                 try:
                     exec(compile(text, str(path), "exec"), g)
                 except Exception as e:
